@@ -214,7 +214,7 @@ Proof.
   - rewrite read_integer_spec by (apply pw_fits; unfold two63, two64 in *; lia).
     rewrite neg_of_small by (unfold two63 in *; lia). f_equal. f_equal. lia.
   - rewrite read_integer_spec by (apply pw_fits; unfold two63, two64 in *; lia).
-    rewrite to_i64_small by (unfold two63 in *; lia). f_equal. f_equal. lia.
+    rewrite clamp_i64_small by (unfold two63 in *; lia). f_equal. f_equal. lia.
 Qed.
 
 Lemma read_key_item (sk : bool) k rest : (if sk return Prop then (-128 <= k < 128)%Z else (0 <= k < 256)%Z) ->
